@@ -116,6 +116,68 @@ def decode(buf, num_channels, shape_zyx, block, itemsize, strict=True,
     return out
 
 
+def decode_np(buf, num_channels, shape_zyx, block, itemsize):
+    """The same decoding rules as decode() (strict), vectorised per block
+    with numpy so that chunks of tens of megabytes can be checked; still
+    independent of the package under test. -> (C,Z,Y,X) uint array."""
+    import numpy as np
+    buf = bytes(buf)
+    Z, Y, X = shape_zyx
+    bx, by, bz = block
+    gx, gy, gz = grid(shape_zyx, block)
+    if len(buf) % 4:
+        raise SpecError("length-not-multiple-of-4", "%d bytes" % len(buf))
+    words = np.frombuffer(buf, dtype="<u4")
+    dt = "<u4" if itemsize == 4 else "<u8"
+    out = np.zeros((num_channels, Z, Y, X), dtype=dt)
+    nvox = bx * by * bz
+    for c in range(num_channels):
+        cw = _u32(buf, 4 * c, "channel %d offset" % c)
+        if cw < num_channels:
+            raise SpecError("channel-offset-inside-channel-table", "")
+        base = 4 * cw
+        if base + 8 * gx * gy * gz > len(buf):
+            raise SpecError("out-of-file", "channel %d header" % c)
+        for z in range(gz):
+            for y in range(gy):
+                for x in range(gx):
+                    h = base + 8 * (x + gx * (y + gy * z))
+                    w0 = _u32(buf, h, "block header")
+                    w1 = _u32(buf, h + 4, "block header")
+                    bits = w0 >> 24
+                    toff = base + 4 * (w0 & 0xFFFFFF)
+                    voff = base + 4 * w1
+                    if bits not in VALID_BITS:
+                        raise SpecError("invalid-bits", "block (%d,%d,%d) "
+                                        "bits=%d" % (x, y, z, bits))
+                    if bits:
+                        nwords = -(-nvox * bits // 32)
+                        if voff + 4 * nwords > len(buf):
+                            raise SpecError("out-of-file", "encoded values "
+                                            "of block (%d,%d,%d)" % (x, y, z))
+                        w = words[voff // 4: voff // 4 + nwords].astype(
+                            np.uint64)
+                        i = np.arange(nvox, dtype=np.uint64)
+                        idx = (w[(i * bits) // 32]
+                               >> ((i * bits) % 32)) & np.uint64(
+                                   (1 << bits) - 1)
+                    else:
+                        idx = np.zeros(nvox, dtype=np.uint64)
+                    idx = idx.reshape(bz, by, bx)
+                    nz, ny, nx = (min(bz, Z - z * bz), min(by, Y - y * by),
+                                  min(bx, X - x * bx))
+                    idx = idx[:nz, :ny, :nx]
+                    top = int(idx.max()) if idx.size else 0
+                    if toff + (top + 1) * itemsize > len(buf):
+                        raise SpecError("out-of-file", "lookup entry %d of "
+                                        "block (%d,%d,%d)" % (top, x, y, z))
+                    table = np.frombuffer(buf, dtype=dt, count=top + 1,
+                                          offset=toff)
+                    out[c, z * bz:z * bz + nz, y * by:y * by + ny,
+                        x * bx:x * bx + nx] = table[idx.astype(np.int64)]
+    return out
+
+
 def is_valid(buf, num_channels, shape_zyx, block, itemsize):
     try:
         decode(buf, num_channels, shape_zyx, block, itemsize, strict=True)
